@@ -218,6 +218,127 @@ func customContainerCacheProbe() (calls int, viol []string) {
 	return
 }
 
+// dictHolder: a second custom container.  It numbers its keywords in a dictionary of ITS OWN (as the stock holders do
+// with parsed values); a cached transaction carries the words, and DecodeTxData numbers them in the dictionary of the
+// holder that decodes -- which therefore has to be the holder that commits.
+type dictTx struct {
+	words []string
+	ids   []int
+}
+
+func (t *dictTx) BetterToCache() bool     { return len(t.words) > 2 }
+func (t *dictTx) Encode() ([]byte, error) { return []byte(strings.Join(t.words, "\x00")), nil }
+
+type dictHolder struct {
+	dict map[string]int
+	pl   map[int]be.Entries
+}
+
+func (h *dictHolder) number(ws []string) []int {
+	ids := make([]int, len(ws))
+	for i, w := range ws {
+		id, ok := h.dict[w]
+		if !ok {
+			id = len(h.dict)
+			h.dict[w] = id
+		}
+		ids[i] = id
+	}
+	return ids
+}
+func (h *dictHolder) EnableDebug(bool)             {}
+func (h *dictHolder) DumpInfo(*strings.Builder)    {}
+func (h *dictHolder) DumpEntries(*strings.Builder) {}
+func (h *dictHolder) GetEntries(field *be.FieldDesc, assigns be.Values) (be.EntriesCursors, error) {
+	w, ok := assigns.(string)
+	if !ok {
+		return nil, fmt.Errorf("dict field needs a string")
+	}
+	id, ok := h.dict[w]
+	if !ok || len(h.pl[id]) == 0 {
+		return nil, nil
+	}
+	return be.EntriesCursors{be.NewEntriesCursor(be.NewQKey(field.Field, w), h.pl[id])}, nil
+}
+func (h *dictHolder) IndexingBETx(_ *be.FieldDesc, bv *be.BoolValues) (be.TxData, error) {
+	ws, ok := bv.Value.([]string)
+	if !ok {
+		return nil, fmt.Errorf("dict field needs a []string")
+	}
+	return &dictTx{words: ws, ids: h.number(ws)}, nil
+}
+func (h *dictHolder) CommitIndexingBETx(tx be.IndexingBETx) error {
+	for _, id := range tx.Data.(*dictTx).ids {
+		h.pl[id] = append(h.pl[id], tx.EID)
+	}
+	return nil
+}
+func (h *dictHolder) DecodeTxData(data []byte) (be.TxData, error) {
+	ws := strings.Split(string(data), "\x00")
+	return &dictTx{words: ws, ids: h.number(ws)}, nil
+}
+func (h *dictHolder) CompileEntries() error {
+	for _, l := range h.pl {
+		sort.Sort(l)
+	}
+	return nil
+}
+
+// dictContainerCacheProbe: cached builds (cold, warm, warm in a NEW builder) against the plain build on an index with a
+// dictHolder field; the conjunction the cache serves comes first, so that it is the first of its build to touch the field
+func dictContainerCacheProbe() (calls int, viol []string) {
+	be.RegisterEntriesHolder("verif_dict", func() be.EntriesHolder { return &dictHolder{dict: map[string]int{}, pl: map[int]be.Entries{}} })
+	old := be.BetterToCacheMaxItemsCount
+	be.BetterToCacheMaxItemsCount = 2
+	defer func() { be.BetterToCacheMaxItemsCount = old }()
+	kw := fieldName(6)
+	long := []string{"w0", "w1", "w2", "w3", "w4", "w5"}
+	for _, kind := range []string{"kgroups", "compact"} {
+		for _, order := range [][]int{{1, 2, 3, 4}, {2, 1, 3, 4}, {4, 3, 1, 2}} {
+			feed := func(b *be.IndexerBuilder) be.BEIndex {
+				b.ConfigField(kw, be.FieldOption{Container: "verif_dict"})
+				cjs := map[int]*be.Conjunction{
+					1: be.NewConjunction().In(kw, long),
+					2: be.NewConjunction().In(kw, []string{"solo"}),
+					3: be.NewConjunction().In(kw, []string{"w5", "w9", "solo", "w0"}).In(fieldName(0), 1),
+					4: be.NewConjunction().NotIn(kw, []string{"w3", "zz", "w1"}).In(fieldName(0), 2),
+				}
+				for _, id := range order {
+					d := be.NewDocument(be.DocID(id))
+					d.AddConjunction(cjs[id])
+					b.AddDocument(d)
+				}
+				return b.BuildIndex()
+			}
+			c := eCase{Kind: kind, Policy: "error"}
+			plain := feed(newBuilder(&c))
+			cache := &lossyCache{r: &Rand{s: 1}, data: map[be.ConjID][]byte{}}
+			reused := newBuilder(&c, be.WithCacheProvider(cache))
+			cold := feed(reused)
+			warmNew := feed(newBuilder(&c, be.WithCacheProvider(cache)))
+			reused.Reset()
+			for gen, idx := range []be.BEIndex{cold, warmNew, feed(newBuilder(&c, be.WithCacheProvider(cache)))} {
+				for _, w := range []string{"w0", "w1", "w3", "w5", "w9", "solo", "zz", "none"} {
+					for _, q := range []be.Assignments{{kw: w}, {kw: w, fieldName(0): 1}, {kw: w, fieldName(0): 2}} {
+						calls++
+						want, e1 := plain.Retrieve(q)
+						got, e2 := idx.Retrieve(q)
+						a, b := docIDs(want), docIDs(got)
+						sort.Slice(a, func(i, j int) bool { return a[i] < a[j] })
+						sort.Slice(b, func(i, j int) bool { return b[i] < b[j] })
+						if (e1 != nil) != (e2 != nil) || !reflect.DeepEqual(a, b) {
+							if len(viol) < 4 {
+								viol = append(viol, fmt.Sprintf("%s index with a custom dictionary container (documents in order %v): cached build %d answers %v with %v (%v), the plain build with %v (%v)", kind, order, gen, q, b, e2, a, e1))
+							}
+						}
+					}
+				}
+			}
+		}
+	}
+	return
+}
+
 func init() {
 	props["C13"] = &propDef{
 		header:    "From BE Require Import Corr.CheckC13.",
@@ -509,7 +630,8 @@ func init() {
 		// compared with the plain build directly
 		extra: func(tier string, seed uint64, outdir string) (map[string]interface{}, []string) {
 			calls, viol := customContainerCacheProbe()
-			return map[string]interface{}{"custom_container_cached_retrievals": calls}, viol
+			calls2, viol2 := dictContainerCacheProbe()
+			return map[string]interface{}{"custom_container_cached_retrievals": calls, "custom_dictionary_container_cached_retrievals": calls2}, append(viol, viol2...)
 		},
 	}
 }
